@@ -393,6 +393,8 @@ E2E_DKG_KINDS = {
     'C12': 'a generation between real daemons that reports success while the participants list different composite keys, thresholds or participants, or whose shares do not recover under the composite key, or whose account cannot be used at once',
     'C14': 'two conflicting duties both collecting a threshold of partial signatures from the daemons',
     'C16': 'a key-generation message from an ordinary client answered without error',
+    'C20': 'a daemon of the cluster dying during a generation, a rogue message, the use of the new account or the conflicting duties',
+    'C17': 'with a configured generation timeout of 2 s and the harness speaking as a peer: a second prepare accepted while one is active, a message accepted after the timeout, or a new prepare refused after it',
 }
 for _pid, _what in E2E_DKG_KINDS.items():
     _c = CHECKS[_pid]
